@@ -96,6 +96,7 @@ columns left to right. -/
 theorem triangle_points_row_major_once (t : Triangle) (h : t.boundingBox.InRange) :
     t.points.Pairwise Pt.rowMajorLt ∧ t.points.Nodup :=
   ⟨points_rowMajor t h, points_nodup t h⟩
+example : (⟨⟨0, 0⟩, ⟨5, 1⟩, ⟨4, 6⟩⟩ : Triangle).boundingBox.InRange := by decide
 
 /-- The edge-line half of the equation: for non-zero area a pixel of one of the three Bresenham
 edge lines is accepted by `contains()` AND yielded by `points()`. -/
@@ -108,7 +109,9 @@ theorem triangle_edge_pixels_in_both (t : Triangle) (h : t.boundingBox.InRange)
     exact edge_pixel_mem_points t h (by rw [usedLines_of_nonzero a]; exact hl) hpl
   exact ⟨(Triangle.contains_iff t p).mpr ⟨points_in_bbox t h p hmem, a, Or.inr hp⟩, hmem⟩
 
-example : (⟨5, 1⟩ : Pt) ∈ (⟨⟨0, 0⟩, ⟨5, 1⟩, ⟨4, 6⟩⟩ : Triangle).edgePoints := by decide
+example : (⟨⟨0, 0⟩, ⟨5, 1⟩, ⟨4, 6⟩⟩ : Triangle).boundingBox.InRange ∧
+    (⟨⟨0, 0⟩, ⟨5, 1⟩, ⟨4, 6⟩⟩ : Triangle).areaDoubled ≠ 0 ∧
+    (⟨5, 1⟩ : Pt) ∈ (⟨⟨0, 0⟩, ⟨5, 1⟩, ⟨4, 6⟩⟩ : Triangle).edgePoints := by decide
 
 /-- **Everything `contains()` accepts is yielded by `points()`** (bounding box within the `i32`
 range): a point passing the closed barycentric test lies on or between two Bresenham edge lines in
@@ -130,6 +133,8 @@ sub-list of `points()` — nothing that `contains()` accepts is missing. -/
 theorem triangle_filter_contains_subset_points (t : Triangle) (h : t.boundingBox.InRange) (p : Pt)
     (hp : p ∈ t.boundingBox.points.filter t.contains) : p ∈ t.points :=
   triangle_contains_imp_points t h p (List.mem_filter.mp hp).2
+example : (⟨3, 2⟩ : Pt) ∈ (⟨⟨0, 0⟩, ⟨5, 1⟩, ⟨4, 6⟩⟩ : Triangle).boundingBox.points.filter
+    (⟨⟨0, 0⟩, ⟨5, 1⟩, ⟨4, 6⟩⟩ : Triangle).contains := by decide
 
 /-- Every point yielded by `points()` is accepted by `contains()`: a point between two edge
 pixels of its row that is not itself an edge pixel passes the closed barycentric test. -/
